@@ -142,4 +142,4 @@ CLAIMED["C11"] = {
 
 NOT_APPLICABLE = {}
 
-FIX_COMMITS = ["b2d156a (np.trapz -> trapezoid)", "1caec1a (negative fit targets no longer declared positive cvxpy parameters)", "f3b37fa (batched_iteration bs > n)", "b98cd56 (poisson baseline tiling)", "d30d941 (minimize .copy())", "35d91a0 (minimize reshape order)", "b90b02d (minimize padded slack)", "7019c2d (excitation baseline)", "3901923 (excitation per-sample)", "b370f4e (adaptive default solver)", "cef6319 (gamut apex = capture at lb)", "f990a92 (hull_dist_scaling forwards relative)", "3b5a1c6 (dichromat chromatic membership)", "be7bf4f (math.factorial in sample_in_hull)", "eeb932d (_spaced_solutions column order)", "f04387b (non-converged default solve retried)"]
+FIX_COMMITS = ["b2d156a (np.trapz -> trapezoid)", "1caec1a (negative fit targets no longer declared positive cvxpy parameters)", "f3b37fa (batched_iteration bs > n)", "b98cd56 (poisson baseline tiling)", "d30d941 (minimize .copy())", "35d91a0 (minimize reshape order)", "b90b02d (minimize padded slack)", "7019c2d (excitation baseline)", "3901923 (excitation per-sample)", "b370f4e (adaptive default solver)", "cef6319 (gamut apex = capture at lb)", "f990a92 (hull_dist_scaling forwards relative)", "3b5a1c6 (dichromat chromatic membership)", "be7bf4f (math.factorial in sample_in_hull)", "eeb932d (_spaced_solutions column order)", "f04387b (non-converged default solve retried)", "64d9976 (hull_dist_scaling: all-zero rows excluded from the early membership test)"]
